@@ -3477,15 +3477,16 @@ else { /** Multiple data chunks **/
 
 	/** looping on the data-chunks, write the size of the current chunk **/
 	 for( i=0; i<(int)node.number_of_data_chunks; i++ ) {
-	    current_bytes = (data_chunk_table[i].end.block -
+	    chunk_total_bytes = (data_chunk_table[i].end.block -
 	         data_chunk_table[i].start.block) * DISK_BLOCK_SIZE +
 	         (data_chunk_table[i].end.offset -
 			data_chunk_table[i].start.offset) -
 		 (TAG_SIZE + DISK_POINTER_SIZE) ;
-        /** Limit the number of bytes written by what's left to write. **/
-            current_bytes = MIN( current_bytes, total_bytes ) ;
+        /** Limit the number of bytes written by what's left to write;
+            the chunk itself keeps its size (the table records it). **/
+            current_bytes = MIN( chunk_total_bytes, total_bytes ) ;
             ADFI_write_data_chunk( file_index, &data_chunk_table[i].start,
-		 tokenized_data_type, file_bytes, current_bytes, 0,
+		 tokenized_data_type, file_bytes, chunk_total_bytes, 0,
 		 current_bytes, data, error_return ) ;
             CHECK_ADF_ABORT( *error_return ) ;
 
